@@ -36,13 +36,15 @@ BOUND_BASE = 256 * 1024
 @st.composite
 def chunk_sizes(draw: Any) -> List[int]:
     n = draw(st.integers(2, 12))
-    style = draw(st.sampled_from(["small", "mixed", "big", "frame_multiple"]))
+    style = draw(st.sampled_from(["small", "mixed", "big", "frame_multiple", "medium"]))
     out = []
     for _ in range(n):
         if style == "small":
             out.append(draw(st.integers(1, 3000)))
         elif style == "big":
             out.append(draw(st.sampled_from([65536, 100000, 200000, 262144])))
+        elif style == "medium":  # many writes, each below every buffer threshold
+            out.append(draw(st.sampled_from([10000, 20000, 30000])))
         elif style == "frame_multiple":
             out.append(draw(st.sampled_from([4096, 8192, 16384, 32768])))
         else:
@@ -390,7 +392,8 @@ def judge_h2(case: Dict[str, Any], obs: Any, mult: int, ws: bool) -> Dict[str, A
     if val["held"] > bound:
         raise Violation("h2_held_unbounded", f"server held {val['held']} bytes of a "
                         f"{total(case, mult)} byte response for stream {sid} while its window "
-                        f"({case['window']}) was exhausted (bound {bound})", backend=be)
+                        f"({case['window']}) was exhausted (bound {bound})", backend=be,
+                        limited_by="transport" if case["window"] == -2 else "flow_control")
     return {"pending": bool(val["pending_at_event"]), "held": val["held"]}
 
 
